@@ -411,9 +411,29 @@ class DeribitKit:
             lvl = rng.choice(side)
             kw["price_in_usd"] = Decimal(str(lvl[0])) * Decimal(str(row["underlying_price"]))
         elif mode == "cap":
-            kw["max_mark_price_multiple"] = Decimal(rng.choice(["1.0", "1.01", "1.05", "1.5", "3"]))
+            kw["max_mark_price_multiple"] = Decimal(rng.choice(["1.0", "1.01", "1.05", "1.25", "1.5", "2", "3"]))
+            if side and row is not None and rng.random() < 0.5:
+                # a cap that falls exactly on a displayed level (mark x multiple = level for a buy, mark / multiple = level
+                # for a sale): whichever side of the cap such a level is on, the availability check and the fill must agree
+                lvl, mark = Decimal(float(rng.choice(side)[0])), Decimal(float(row["mark_price"]))  # the binary values
+                if lvl > 0 and mark > 0:
+                    mult = lvl / mark if choice == "buy" else mark / lvl
+                    if mult >= 1:
+                        kw["max_mark_price_multiple"] = mult if rng.random() < 0.5 else float(mult)
+                        mode = "cap_on_level"
         state = "" if row is None or row["state"] == "open" else "/closed-instrument"
-        fn = (lambda: m.buy(name, amt, **kw)) if choice == "buy" else (lambda: m.sell(name, amt, **kw))
+        trade = (lambda: m.buy(name, amt, **kw)) if choice == "buy" else (lambda: m.sell(name, amt, **kw))
+        fn = trade
+        if rng.random() < 0.25:
+            q_side = choice if rng.random() < 0.8 else ("sell" if choice == "buy" else "buy")
+
+            def fn():
+                # a quote first (estimate_cost is a read-only helper; whatever it answers or refuses changes nothing)
+                try:
+                    m.estimate_cost(name, amt, q_side)
+                except Exception:
+                    pass
+                return trade()
         lab = f"{cls}/{mode}{state}" + ("" if choice == "buy" or name in m.positions else "/not-held")
         return Op(self.mtype, choice, lab, fn, kind="trade", info={"instrument": name})
 
